@@ -208,6 +208,15 @@ func c11Moments(c *ctx) {
 					if idx < len(tl) {
 						f["tms"] = []string{digest(tl[idx], skip), digest(l.GetTime(), skip)}
 					}
+					// and an entry on the other side of 23:00, against the hour object of the same lunar day built at that hour
+					j, hj := 12, 23
+					if m[3] == 23 {
+						j, hj = 1+i%11, 0
+						hj = 2*j - 1
+					}
+					if j < len(tl) {
+						f["tms2"] = []string{digest(tl[j], skip), digest(calendar.NewLunar(l.GetYear(), l.GetMonth(), l.GetDay(), hj, 0, 0).GetTime(), skip)}
+					}
 				}
 				// the three reverse-lookup entry points agree (default school 2, default base 1900)
 				pz := []string{ec.GetYear(), ec.GetMonth(), ec.GetDay(), ec.GetTime()}
